@@ -50,6 +50,26 @@ func discoverPools(p *core.Prog) *poolInfo {
 			}
 		})
 	}
+	// the release side by shape as well: the method of a pool holder that takes exactly what the holder's borrow
+	// function returns and returns nothing is that pool's redeem function, also when its Put is (temporarily) gone —
+	// a pool that is never refilled recycles nothing, which no property forbids
+	for bf, t := range pi.borrow {
+		if bf.Signature.Recv() == nil {
+			continue
+		}
+		holder := core.NamedOf(bf.Signature.Recv().Type())
+		for _, f := range p.Funcs {
+			if f.Parent() != nil || f == bf || f.Signature.Recv() == nil || core.NamedOf(f.Signature.Recv().Type()) != holder {
+				continue
+			}
+			if _, known := pi.redeem[f]; known {
+				continue
+			}
+			if f.Signature.Results().Len() == 0 && f.Signature.Params().Len() == 1 && types.Identical(f.Signature.Params().At(0).Type(), t) {
+				pi.redeem[f] = t
+			}
+		}
+	}
 	for _, t := range pi.borrow {
 		if n := core.NamedOf(t); n != nil && n.Obj().Pkg() == p.Main.Pkg {
 			pi.pooled[n] = true
